@@ -4,6 +4,7 @@
    base64 is a parameter [enc]/[dec] with the two stated hypotheses; both are
    proved for the concrete RFC 4648 codec of Model/Base64.v (C18_base64_roundtrip,
    C18_base64_nonempty), which gives the hypothesis-free C18_roundtrip_concrete. *)
+From Coq Require Import Permutation.
 From Oras Require Import Base.Prelude Base.FlatFS Generated.GC18
   Model.Base64 Model.CredFile Model.CredSave Model.CredConc
   Proofs.Base64 Proofs.CredFile Proofs.CredSave Proofs.CredConc.
@@ -45,6 +46,16 @@ Theorem C18_roundtrip_concrete :
     snd (step b64_encode b64_decode (run b64_encode b64_decode (fst (step b64_encode b64_decode st (Put a c))) h) (Get a)) = RCred c.
 Proof. exact (roundtrip b64_encode b64_decode bytes b64_roundtrip b64_encode_nonempty). Qed.
 Print Assumptions C18_roundtrip_concrete.
+
+(* Go's map iteration order in GetCredential: the candidate list is exactly the
+   set of answers over all orders of the key-unique cache *)
+Theorem C18_get_all_orders :
+  forall (dec : str -> option str) cache a r,
+    NoDup (map fst cache) ->
+    (In r (get_candidates dec cache a) <->
+     exists cache', Permutation cache cache' /\ get_cache dec cache' a = r).
+Proof. exact candidates_all_orders. Qed.
+Print Assumptions C18_get_all_orders.
 
 (* a colon in the username is refused and nothing changes *)
 Theorem C18_colon_refused :
@@ -228,3 +239,15 @@ Proof.
     + intros [|[|i]]; split; reflexivity.
     + vm_compute. reflexivity.
 Qed.
+
+(* the defect this check found (fixed on the repository branch): before the fix
+   a config file holding the JSON value null made the first save panic *)
+Theorem C18_null_document_refuted :
+  exists j cache, save_content_prefix (load_content_prefix j) cache = None.
+Proof. exact null_document_refuted. Qed.
+Print Assumptions C18_null_document_refuted.
+
+Theorem C18_null_document_fixed :
+  forall j cache, save_content_prefix (load_content j) cache <> None.
+Proof. exact null_document_fixed. Qed.
+Print Assumptions C18_null_document_fixed.
